@@ -14,7 +14,7 @@ from ..report import FAILED, PROVED, ERROR, ob
 from .sym import Concretisation, Ctx, PathLimit, SpecUndecided, Sym, explore, symbolic_in
 
 SEP = Fraction(1, 10 ** 6)      # A3: distinct knots at least 1e-6 apart (library tolerance)
-NODE_SEP = Fraction(1, 10 ** 9)  # nodes not equal to a knot stay 1e-9 away where mult() is used
+NODE_SEP = Fraction(2, 10 ** 9)  # nodes not equal to a knot stay 2e-9 away where mult() is used (float 1e-9 > 1/10^9)
 
 
 def knot_names(shape):
@@ -134,6 +134,23 @@ class Checker:
         self.wb = witness_base
         self.obs = []
 
+    def call(self, f, *a, **k):
+        """Run code under contract: branches may fork, divisions are checked.  Everything outside call() is
+        spec / harness computation: comparisons must be decided by the path condition, division is formal."""
+        ctx = self.ctx
+        prev = ctx.nodecide
+        ctx.nodecide = False
+        try:
+            return f(*a, **k)
+        except BaseException as e:
+            try:
+                e._from_code = True
+            except Exception:
+                pass
+            raise
+        finally:
+            ctx.nodecide = prev
+
     def _wit(self, pt, extra=None):
         w = dict(self.wb)
         w["point"] = {k: str(v) for k, v in (pt or {}).items()}
@@ -217,6 +234,7 @@ def _run_paths(ctx, fn_name, engine, tag, wb, body, allowed_exc=(), max_paths=40
 
     def timed(chk):
         signal.setitimer(signal.ITIMER_REAL, PATH_TIMEOUT_S, 0.25)
+        ctx.nodecide = True
         try:
             return body(chk)
         finally:
@@ -237,8 +255,10 @@ def _run_paths(ctx, fn_name, engine, tag, wb, body, allowed_exc=(), max_paths=40
                 chk.add("terminates", False, "no result after %d s on this path (the unchanged tree needs < 1%% of that): "
                         "non-termination or blow-up" % PATH_TIMEOUT_S, tags={"timeout": True})
                 continue
-            if isinstance(exc, SpecUndecided):
-                chk.add("spec-decidable", False, "spec comparison undecided: %s" % exc, status=ERROR)
+            if isinstance(exc, SpecUndecided) or not getattr(exc, "_from_code", False) and not isinstance(exc, (PathTimeout, Concretisation)):
+                import traceback
+                tb = "".join(traceback.format_exception(type(exc), exc, exc.__traceback__)[-4:])
+                chk.add("harness", False, "spec/harness computation failed (not a verdict): %s: %s | %s" % (type(exc).__name__, exc, tb[-700:]), status=ERROR)
             elif isinstance(exc, Concretisation):
                 chk.add("exact-field", False, "the code left the exact field: %s" % exc)
             else:
